@@ -351,6 +351,76 @@ def split_rows(sym, bb, idx, rv, limit=24):
     return split_eval(sym, bb, idx, lambda v: v.rvalue(rv), limit)
 
 
+def _kill_points(body, locals_):
+    ks = set()
+    for l in locals_:
+        for d in body.defs_of(l):
+            if d[0] == "assign":
+                ks.add((d[1], d[2]))
+            elif d[0] == "call":
+                ks.add((d[1], len(body.blocks[d[1]]["stmts"])))
+    return ks
+
+
+def _reach_nokill(body, src, dst, kills):
+    """can control go from just after point `src` to point `dst` (exclusive) without crossing one of `kills`?
+    points are (bb, idx), idx == len(stmts) for the terminator; src (-1, a) = function entry"""
+    live = body.live_blocks()
+    if src[0] < 0:
+        start = [(0, 0)]
+    else:
+        n = len(body.blocks[src[0]]["stmts"])
+        if src[1] >= n:
+            t = body.term(src[0])
+            start = [(t["target"], 0)] if t.get("k") == "call" and isinstance(t.get("target"), int) else [(x, 0) for x in body.succs(src[0])]
+        else:
+            start = [(src[0], src[1] + 1)]
+    seen = set()
+    work = list(start)
+    while work:
+        bb, i = work.pop()
+        if bb not in live or (bb, i) in seen:
+            continue
+        seen.add((bb, i))
+        n = len(body.blocks[bb]["stmts"])
+        blocked = False
+        for k in range(i, n + 1):
+            if (bb, k) == dst:
+                return True
+            if (bb, k) in kills:
+                blocked = True
+                break
+        if blocked:
+            continue
+        for sc in body.succs(bb):
+            work.append((sc, 0))
+    return False
+
+
+def choice_feasible(body, choice, use):
+    """is there one execution on which every chosen definition is the one reaching `use`?  (definitions picked independently per
+    local can belong to different paths: `reply = Some(v)` of the Ok arm with `last_error = Some(e)` of an Err arm)"""
+    items = list(choice.items())
+    if len(items) < 2 or len(items) > 4:
+        return True
+    import itertools
+    for perm in itertools.permutations(items):
+        ok = True
+        held = []
+        for k, (l, pt) in enumerate(perm):
+            held.append(l)
+            nxt = perm[k + 1][1] if k + 1 < len(perm) else use
+            kills = _kill_points(body, held) - {nxt}
+            if pt == nxt:
+                continue
+            if nxt[0] < 0 or not _reach_nokill(body, pt, nxt, kills):
+                ok = False
+                break
+        if ok:
+            return True
+    return False
+
+
 def split_eval(sym, bb, idx, fn, limit=24):
     """split_rows for an arbitrary evaluation `fn(view)` (e.g. the value of a call with its arguments)"""
     out = []
@@ -361,7 +431,8 @@ def split_eval(sym, bb, idx, fn, limit=24):
         val = fn(v)
         amb = {l: pts for l, pts in v.ambiguous.items() if l not in ch}
         if not amb:
-            out.append((ch, val))
+            if choice_feasible(sym.body, ch, (bb, idx)):
+                out.append((ch, val))
             continue
         l = sorted(amb)[0]
         for pt in amb[l]:
